@@ -78,6 +78,25 @@ func newNormalizer(ground []*Term) *normalizer {
 	for _, a := range ground {
 		scan(a)
 	}
+	// terms asserted non-negative as signed numbers (0 <= x): a signed bound x <= y with y below 2^63
+	// then bounds x as an unsigned number too
+	nonNeg := map[*Term]bool{}
+	var scanNN func(a *Term)
+	scanNN = func(a *Term) {
+		switch a.Op {
+		case "and":
+			for _, x := range a.Args {
+				scanNN(x)
+			}
+		case "bvsle", "bvslt":
+			if a.Args[0].IsConst() && a.Args[0].Sort == BV64 && a.Args[0].Val.Cmp(bigPow2(63)) < 0 {
+				nonNeg[a.Args[1]] = true
+			}
+		}
+	}
+	for _, a := range ground {
+		scanNN(a)
+	}
 	// a <= b with b bounded bounds a (two rounds are enough for len <= cap <= const chains)
 	for round := 0; round < 2; round++ {
 		var rel func(a *Term)
@@ -86,6 +105,14 @@ func newNormalizer(ground []*Term) *normalizer {
 			case "and":
 				for _, x := range a.Args {
 					rel(x)
+				}
+			case "bvsle", "bvslt":
+				if nonNeg[a.Args[0]] && !a.Args[1].IsConst() {
+					if u, ok := n.upper(a.Args[1]); ok && u.Cmp(bigPow2(63)) < 0 {
+						n.noteUB(a.Args[0], u)
+					}
+				} else if nonNeg[a.Args[0]] && a.Args[1].IsConst() && a.Args[1].Val.Cmp(bigPow2(63)) < 0 {
+					n.noteUB(a.Args[0], a.Args[1].Val)
 				}
 			case "bvule", "bvult":
 				if !a.Args[1].IsConst() {
@@ -413,6 +440,18 @@ func (n *normalizer) diff(x, base *Term) *Term {
 }
 
 // rewrite normalises a term bottom-up.
+// smallNonNeg: t is a constant below 2^63 or has a known unsigned upper bound below 2^63.
+func (n *normalizer) smallNonNeg(t *Term) bool {
+	lim := bigPow2(63)
+	if t.IsConst() {
+		return t.Val.Cmp(lim) < 0
+	}
+	if u, ok := n.upper(t); ok {
+		return u.Cmp(lim) < 0
+	}
+	return false
+}
+
 func (n *normalizer) rewrite(t *Term) *Term {
 	if r, ok := n.memo[t]; ok {
 		return r
@@ -423,6 +462,14 @@ func (n *normalizer) rewrite(t *Term) *Term {
 		r = t
 	case t.Sort == BV64 && (t.Op == "bvadd" || t.Op == "bvsub" || t.Op == "bvneg" || (t.Op == "var" && n.defs[t] != nil)):
 		r = n.lin(t).build()
+	case (t.Op == "bvslt" || t.Op == "bvsle") && t.Args[0].Sort == BV64 && n.smallNonNeg(t.Args[0]) && n.smallNonNeg(t.Args[1]):
+		// both sides are below 2^63 as unsigned numbers (lengths, offsets, bounded counters): the
+		// signed comparison is the unsigned one, which the linear rules below understand
+		op := "bvult"
+		if t.Op == "bvsle" {
+			op = "bvule"
+		}
+		r = n.rewrite(BVCmp(op, t.Args[0], t.Args[1]))
 	case (t.Op == "bvult" || t.Op == "bvule") && t.Args[0].Sort == BV64:
 		if c := n.cmp(t.Op, t.Args[0], t.Args[1]); c != nil {
 			r = c
